@@ -169,7 +169,11 @@ Section Layouts.
   Variable O : oracles.
   Variable w : nat.
   Variable rec : expr -> nat -> doc.
-  Hypothesis Hrec : forall x j, dok true (rec x j) = true.
+  (* G: the children whose layout is known to be a dok document (the induction hypothesis when
+     rec is fmtd itself) *)
+  Variable G : expr -> Prop.
+  Hypothesis Hrec : forall x j, G x -> dok true (rec x j) = true.
+  Definition Gcm (c : commented expr) : Prop := G (cnode c).
 
   Ltac norm := repeat (progress (repeat rewrite <- app_assoc; cbn [app])).
 
@@ -192,64 +196,68 @@ Section Layouts.
     match l with [] => true | Cm [] _ None :: r => plain_items r | _ => false end.
 
   (* format_list_multiline *)
-  Lemma dok_list_items : forall items inner tail, plain_items items = true ->
+  Lemma dok_list_items : forall items inner tail, plain_items items = true -> Forall Gcm items ->
     dok true (list_items_doc rec items inner ++ tail) = dok true tail.
   Proof.
-    induction items as [|[lead n tr] items IH]; intros inner tail Hp; [reflexivity|].
+    induction items as [|[lead n tr] items IH]; intros inner tail Hp HG; [reflexivity|].
+    inversion HG as [|? ? Gn HG']; subst. unfold Gcm in Gn; cbn [cnode] in Gn.
     cbn [plain_items] in Hp. destruct lead; [|discriminate]. destruct tr; [discriminate|].
     cbn [list_items_doc leading_doc trailing_doc flat_map]. norm.
-    rewrite dok_nl_ind, (dok_child _ (Code ",") _ (Hrec n inner) eq_refl eq_refl).
-    rewrite (dok_closed_piece "," _ eq_refl eq_refl). exact (IH inner tail Hp).
+    rewrite dok_nl_ind, (dok_child _ (Code ",") _ (Hrec n inner Gn) eq_refl eq_refl).
+    rewrite (dok_closed_piece "," _ eq_refl eq_refl). exact (IH inner tail Hp HG').
   Qed.
-  Theorem dok_list_doc : forall items i, plain_items items = true ->
+  Theorem dok_list_doc : forall items i, plain_items items = true -> Forall Gcm items ->
     dok true (list_doc rec items i) = true.
   Proof.
-    intros items i Hp. unfold list_doc. destruct items as [|c items]; [reflexivity|].
-    norm. rewrite (dok_closed_piece "[" _ eq_refl eq_refl), (dok_list_items _ _ _ Hp), dok_nl_ind.
+    intros items i Hp HG. unfold list_doc. destruct items as [|c items]; [reflexivity|].
+    norm. rewrite (dok_closed_piece "[" _ eq_refl eq_refl), (dok_list_items _ _ _ Hp HG), dok_nl_ind.
     reflexivity.
   Qed.
 
   (* format_call_multiline *)
-  Theorem dok_call_doc : forall f args i, dok true (call_doc O rec f args i) = true.
+  Theorem dok_call_doc : forall f args i, G f -> Forall G args ->
+    dok true (call_doc O rec f args i) = true.
   Proof.
-    intros f args i. unfold call_doc.
-    pose proof (dok_wrap (o_postfix_parens O f) _ (Hrec f i)) as Hf.
+    intros f args i Gf Ga. unfold call_doc.
+    pose proof (dok_wrap (o_postfix_parens O f) _ (Hrec f i Gf)) as Hf.
     destruct args as [|a args].
     - rewrite (dok_child _ (Code "()") [] Hf eq_refl eq_refl). reflexivity.
     - norm. rewrite (dok_child _ (Code "(") _ Hf eq_refl eq_refl).
       rewrite (dok_closed_piece "(" _ eq_refl eq_refl).
-      generalize (a :: args). intro l. induction l as [|x l IH].
+      revert Ga. generalize (a :: args). intros l Ga. induction l as [|x l IH].
       + cbn [flat_map app]. rewrite dok_nl_ind. reflexivity.
-      + cbn [flat_map]. norm.
-        rewrite dok_nl_ind, (dok_child _ (Code ",") _ (Hrec x _) eq_refl eq_refl).
-        rewrite (dok_closed_piece "," _ eq_refl eq_refl). exact IH.
+      + inversion Ga as [|? ? Gx Ga']; subst. cbn [flat_map]. norm.
+        rewrite dok_nl_ind, (dok_child _ (Code ",") _ (Hrec x _ Gx) eq_refl eq_refl).
+        rewrite (dok_closed_piece "," _ eq_refl eq_refl). exact (IH Ga').
   Qed.
 
   (* format_binary_op_multiline, every arm (the re-assembled right operand of via/into/where is
      the document itself since the F55 repair: Relined.v; the Relined piece is unreachable) *)
-  Theorem dok_binop_doc : forall op l r i, dok true (binop_doc O w rec op l r i) = true.
+  Theorem dok_binop_doc : forall op l r i, G l -> G r -> dok true (binop_doc O w rec op l r i) = true.
   Proof.
-    intros op l r i. unfold binop_doc.
-    pose proof (dok_wrap (o_needs_parens O op l true) _ (Hrec l i)) as Hl.
+    intros op l r i Gl Gr. unfold binop_doc.
+    pose proof (dok_wrap (o_needs_parens O op l true) _ (Hrec l i Gl)) as Hl.
     destruct (op_mid_facts op) as [M1 [M2 M3]]. destruct (op_head_facts op) as [H1 H2].
     destruct (is_via_like op && is_lambda r).
-    - pose proof (dok_wrap (o_needs_parens O op r false) _ (Hrec r i)) as Hr.
+    - pose proof (dok_wrap (o_needs_parens O op r false) _ (Hrec r i Gr)) as Hr.
       match goal with |- context [if ?c then _ else _] => destruct c end.
       + destruct (contains_nl _) eqn:Enl.
         * rewrite (relined_identity _ Enl), String.eqb_refl. norm.
           rewrite (dok_child _ (Code _) _ Hl M1 M2), (dok_closed_piece _ _ M1 M3). exact Hr.
         * norm. rewrite (dok_child _ (Code _) _ Hl M1 M2), (dok_closed_piece _ _ M1 M3). exact Hr.
       + norm. rewrite (dok_child_nl _ _ _ Hl), (dok_closed_piece _ _ H1 H2). exact Hr.
-    - pose proof (dok_wrap (o_needs_parens O op r false) _ (Hrec r (i + INDENT_SIZE))) as Hr.
+    - pose proof (dok_wrap (o_needs_parens O op r false) _ (Hrec r (i + INDENT_SIZE) Gr)) as Hr.
       norm. rewrite (dok_child_nl _ _ _ Hl), (dok_closed_piece _ _ H1 H2). exact Hr.
   Qed.
 
   (* format_conditional_multiline *)
+  Fixpoint gchain (el : expr) : Prop :=
+    match el with ECond c2 t2 e2 => G c2 /\ G t2 /\ gchain e2 | _ => G el end.
   Theorem dok_cond_doc : forall el fc ft i,
-    (forall j, dok true (fc j) = true) -> (forall j, dok true (ft j) = true) ->
+    (forall j, dok true (fc j) = true) -> (forall j, dok true (ft j) = true) -> gchain el ->
     dok true (cond_doc w rec fc ft el i) = true.
   Proof.
-    induction el; intros fc ft i Hc Ht; cbn [cond_doc];
+    induction el; intros fc ft i Hc Ht Hg; cbn [cond_doc]; cbn [gchain] in Hg;
       match goal with |- context [if ?c then _ else _] => destruct c end; norm;
       rewrite (dok_closed_piece "if " _ eq_refl eq_refl);
       first [ rewrite (dok_child _ (Code " then") _ (Hc _) eq_refl eq_refl),
@@ -257,30 +265,32 @@ Section Layouts.
             | rewrite (dok_child_nl _ _ _ (Hc _)),
                       (dok_word_nl "then" _ _ true eq_refl eq_refl eq_refl) ];
       rewrite (dok_child_nl _ _ _ (Ht _));
-      first [ rewrite (dok_word_nl "else" _ _ true eq_refl eq_refl eq_refl); apply Hrec
+      first [ rewrite (dok_word_nl "else" _ _ true eq_refl eq_refl eq_refl); apply Hrec; exact Hg
             | rewrite (dok_closed_piece "else " _ eq_refl eq_refl);
-              apply IHel3; intro; apply Hrec ].
+              destruct Hg as [G1 [G2 G3]];
+              apply IHel3; [intro; apply Hrec; exact G1|intro; apply Hrec; exact G2|exact G3] ].
   Qed.
 
   (* format_do_block_multiline *)
-  Lemma dok_do_stmts : forall stmts inner first n tail c, plain_items stmts = true ->
+  Lemma dok_do_stmts : forall stmts inner first n tail c, plain_items stmts = true -> Forall Gcm stmts ->
     dok c (do_stmts_doc rec stmts inner first ++ Nl :: ind n :: tail) = dok true tail.
   Proof.
-    induction stmts as [|[lead x tr] stmts IH]; intros inner first n tail c Hp.
+    induction stmts as [|[lead x tr] stmts IH]; intros inner first n tail c Hp HG.
     - cbn [do_stmts_doc app]. apply dok_nl_ind.
-    - cbn [plain_items] in Hp. destruct lead; [|discriminate]. destruct tr; [discriminate|].
+    - inversion HG as [|? ? Gx HG']; subst. unfold Gcm in Gx; cbn [cnode] in Gx.
+      cbn [plain_items] in Hp. destruct lead; [|discriminate]. destruct tr; [discriminate|].
       cbn [do_stmts_doc leading_doc trailing_doc flat_map]. norm.
-      rewrite dok_nl_ind, dok_app, (dok_protect _ first (Hrec x inner)). cbn [andb].
-      exact (IH inner false n tail _ Hp).
+      rewrite dok_nl_ind, dok_app, (dok_protect _ first (Hrec x inner Gx)). cbn [andb].
+      exact (IH inner false n tail _ Hp HG').
   Qed.
   Theorem dok_do_doc : forall stmts ret i, plain_items stmts = true -> plain_items [ret] = true ->
-    dok true (do_doc rec stmts ret i) = true.
+    Forall Gcm stmts -> Gcm ret -> dok true (do_doc rec stmts ret i) = true.
   Proof.
-    intros stmts [lead x tr] i Hp Hr. cbn [plain_items] in Hr.
+    intros stmts [lead x tr] i Hp Hr HG Gx. unfold Gcm in Gx; cbn [cnode] in Gx. cbn [plain_items] in Hr.
     destruct lead; [|discriminate]. destruct tr; [discriminate|].
     unfold do_doc. cbn [cleading cnode leading_doc flat_map]. norm.
-    rewrite (dok_closed_piece "do {" _ eq_refl eq_refl), (dok_do_stmts _ _ _ _ _ _ Hp).
-    rewrite (dok_closed_piece "return " _ eq_refl eq_refl), (dok_child_nl _ _ _ (Hrec x _)).
+    rewrite (dok_closed_piece "do {" _ eq_refl eq_refl), (dok_do_stmts _ _ _ _ _ _ Hp HG).
+    rewrite (dok_closed_piece "return " _ eq_refl eq_refl), (dok_child_nl _ _ _ (Hrec x _ Gx)).
     reflexivity.
   Qed.
 
@@ -298,20 +308,20 @@ Section Layouts.
   Qed.
 
   (* format_lambda *)
-  Theorem dok_lambda_doc : forall args body i, ends_code (lambda_args_part args) = true ->
+  Theorem dok_lambda_doc : forall args body i, ends_code (lambda_args_part args) = true -> G body ->
     dok true (lambda_doc O w rec args body i) = true.
   Proof.
-    intros args body i Ha. unfold lambda_doc.
+    intros args body i Ha Gb. unfold lambda_doc.
     destruct (kw_suffix _ " => " Ha eq_refl eq_refl) as [_ [A2 A3]].
     destruct (kw_suffix _ " =>" Ha eq_refl eq_refl) as [B1 [_ B3]].
     assert (E : ((lambda_args_part args +++ " =>") +++ " ") = (lambda_args_part args +++ " => "))
       by (rewrite sapp_assoc; reflexivity).
-    pose proof (dok_wrap (o_lambda_body_parens O body) _ (Hrec body i)) as Hb.
+    pose proof (dok_wrap (o_lambda_body_parens O body) _ (Hrec body i Gb)) as Hb.
     destruct (is_do body).
-    - norm. rewrite E, (dok_closed_piece _ _ A3 A2). apply Hrec.
+    - norm. rewrite E, (dok_closed_piece _ _ A3 A2). apply Hrec, Gb.
     - match goal with |- context [if ?c then _ else _] => destruct c end; norm.
       + rewrite E, (dok_closed_piece _ _ A3 A2). exact Hb.
-      + rewrite (dok_word_nl _ _ _ true B1 B3 eq_refl). apply dok_wrap, Hrec.
+      + rewrite (dok_word_nl _ _ _ true B1 B3 eq_refl). apply dok_wrap, Hrec, Gb.
   Qed.
 
   (* format_record_entry / format_record_multiline *)
@@ -324,46 +334,56 @@ Section Layouts.
   Fixpoint entries_ok (l : list (commented rentry)) : bool :=
     match l with [] => true | Cm [] r None :: l' => entry_ok r && entries_ok l' | _ => false end.
 
-  Lemma dok_entry_then : forall r i p tail, entry_ok r = true ->
+  Definition Gentry (r : rentry) : Prop :=
+    match r with
+    | REntry (KDyn k) v => G k /\ G v
+    | REntry (KSpread x) _ => G x
+    | REntry (KStatic _) v => G v
+    | REntry (KShort _) _ => True
+    end.
+  Lemma dok_entry_then : forall r i p tail, entry_ok r = true -> Gentry r ->
     nonempty (render_piece p) = true -> starts_break (render_piece p) = true ->
     dok true (entry_doc O rec r i ++ p :: tail) = dok true (p :: tail).
   Proof.
-    intros [[key|ke|name|x] v] i p tail Hk Hn Hb; cbn [entry_doc entry_ok] in *.
+    intros [[key|ke|name|x] v] i p tail Hk HG Hn Hb; cbn [entry_doc entry_ok Gentry] in *.
     - destruct (kw_suffix _ ": " Hk eq_refl eq_refl) as [_ [A2 A3]].
-      cbn [app]. rewrite (dok_closed_piece _ _ A3 A2). exact (dok_child _ p tail (Hrec v i) Hn Hb).
-    - norm. rewrite (dok_closed_piece "[" _ eq_refl eq_refl).
-      rewrite (dok_child _ (Code "]: ") _ (Hrec ke i) eq_refl eq_refl).
-      rewrite (dok_closed_piece "]: " _ eq_refl eq_refl). exact (dok_child _ p tail (Hrec v i) Hn Hb).
+      cbn [app]. rewrite (dok_closed_piece _ _ A3 A2). exact (dok_child _ p tail (Hrec v i HG) Hn Hb).
+    - destruct HG as [Gk Gv]. norm. rewrite (dok_closed_piece "[" _ eq_refl eq_refl).
+      rewrite (dok_child _ (Code "]: ") _ (Hrec ke i Gk) eq_refl eq_refl).
+      rewrite (dok_closed_piece "]: " _ eq_refl eq_refl). exact (dok_child _ p tail (Hrec v i Gv) Hn Hb).
     - apply andb_prop in Hk. destruct Hk as [Hk Hne]. cbn [app].
       cbn [dok render_piece]. rewrite Hk. cbn [orb andb]. destruct name; [discriminate|].
       cbn [closed_after]. apply dok_break; assumption.
-    - exact (dok_child _ p tail (Hrec x i) Hn Hb).
+    - exact (dok_child _ p tail (Hrec x i HG) Hn Hb).
   Qed.
   Lemma dok_rec_entries : forall entries inner tail, entries_ok entries = true ->
+    Forall (fun c => Gentry (cnode c)) entries ->
     dok true (rec_entries_doc O rec entries inner ++ tail) = dok true tail.
   Proof.
-    induction entries as [|[lead r tr] entries IH]; intros inner tail Hp; [reflexivity|].
+    induction entries as [|[lead r tr] entries IH]; intros inner tail Hp HG; [reflexivity|].
+    inversion HG as [|? ? Gr HG']; subst. cbn [cnode] in Gr.
     cbn [entries_ok] in Hp. destruct lead; [|discriminate]. destruct tr; [discriminate|].
     apply andb_prop in Hp. destruct Hp as [Hr Hp].
     cbn [rec_entries_doc leading_doc trailing_doc flat_map]. norm.
-    rewrite dok_nl_ind, (dok_entry_then r inner (Code ",") _ Hr eq_refl eq_refl).
-    rewrite (dok_closed_piece "," _ eq_refl eq_refl). exact (IH inner tail Hp).
+    rewrite dok_nl_ind, (dok_entry_then r inner (Code ",") _ Hr Gr eq_refl eq_refl).
+    rewrite (dok_closed_piece "," _ eq_refl eq_refl). exact (IH inner tail Hp HG').
   Qed.
   Theorem dok_record_doc : forall entries i, entries_ok entries = true ->
+    Forall (fun c => Gentry (cnode c)) entries ->
     dok true (record_doc O rec entries i) = true.
   Proof.
-    intros entries i Hp. unfold record_doc. destruct entries as [|c entries]; [reflexivity|].
-    norm. rewrite (dok_closed_piece "{" _ eq_refl eq_refl), (dok_rec_entries _ _ _ Hp), dok_nl_ind.
+    intros entries i Hp HG. unfold record_doc. destruct entries as [|c entries]; [reflexivity|].
+    norm. rewrite (dok_closed_piece "{" _ eq_refl eq_refl), (dok_rec_entries _ _ _ Hp HG), dok_nl_ind.
     reflexivity.
   Qed.
 
   (* assignment and `output` (format_multiline) *)
-  Theorem dok_assign : forall x v i, ends_code x = true ->
+  Theorem dok_assign : forall x v i, ends_code x = true -> G v ->
     dok true (Code (x +++ " = ") :: rec v i) = true.
   Proof.
-    intros x v i Hx. destruct (kw_suffix _ " = " Hx eq_refl eq_refl) as [_ [A2 A3]].
-    rewrite (dok_closed_piece _ _ A3 A2). apply Hrec.
+    intros x v i Hx Gv. destruct (kw_suffix _ " = " Hx eq_refl eq_refl) as [_ [A2 A3]].
+    rewrite (dok_closed_piece _ _ A3 A2). apply Hrec, Gv.
   Qed.
-  Theorem dok_output : forall x i, dok true (Code "output " :: rec x i) = true.
-  Proof. intros x i. rewrite (dok_closed_piece "output " _ eq_refl eq_refl). apply Hrec. Qed.
+  Theorem dok_output : forall x i, G x -> dok true (Code "output " :: rec x i) = true.
+  Proof. intros x i Gx. rewrite (dok_closed_piece "output " _ eq_refl eq_refl). apply Hrec, Gx. Qed.
 End Layouts.
